@@ -32,7 +32,7 @@ type VirtualMachine struct {
 	ip           int // instruction pointer
 	sp           int // stack pointer
 	fp           int // frame pointer
-	halt         int32
+	halt         *int32 // halt flag of the current run, shared with clones
 	startCount   int64
 	activeFrame  *frame
 	activeCode   *code
@@ -127,11 +127,14 @@ func (vm *VirtualMachine) start(ctx context.Context) error {
 	vm.running = true
 	vm.startCount++
 	// Halt execution when the context is cancelled
-	vm.halt = 0
+	// Each run gets its own halt flag, so that a watcher left over from an
+	// earlier run (whose context is cancelled later) cannot halt this run.
+	halt := new(int32)
+	vm.halt = halt
 	if doneChan := ctx.Done(); doneChan != nil {
 		go func() {
 			<-doneChan
-			atomic.StoreInt32(&vm.halt, 1)
+			atomic.StoreInt32(halt, 1)
 		}()
 	}
 	return nil
@@ -223,7 +226,6 @@ func (vm *VirtualMachine) resetForNewCode() {
 	vm.sp = -1
 	vm.ip = 0
 	vm.fp = 0
-	vm.halt = 0
 	vm.activeFrame = nil
 	vm.activeCode = nil
 	vm.loadedCode = map[*compiler.Code]*code{}
@@ -282,7 +284,7 @@ func (vm *VirtualMachine) eval(ctx context.Context) error {
 	// Run to the end of the active code
 	for vm.ip < len(vm.activeCode.Instructions) {
 
-		if atomic.LoadInt32(&vm.halt) == 1 {
+		if halt := vm.halt; halt != nil && atomic.LoadInt32(halt) == 1 {
 			return ctx.Err()
 		}
 
